@@ -365,7 +365,11 @@ fn gen_case(seed: u64, case_no: u64, len: u64, c19: bool) -> Vec<String> {
     let nsrc = shape(m).len() as u64;
     for _ in 0..n_ops {
         match r.weighted(&[30, 10, 34, 6, 4, 4, if c19 { 7 } else { 1 }, if c19 { 7 } else { 1 }]) {
-            0 => { let k = *r.pick(&[1usize, 1, 2, 3, 7, 20]); lines.push(format!("append {k} {}", r.below(1 << 30))); n += k; }
+            0 => {
+                // now and then a source longer than one cursor chunk (4096 elements): window reads then cross a chunk boundary
+                let k = if n < 4000 && r.chance(1, 30) { 4200 } else { *r.pick(&[1usize, 1, 2, 3, 7, 20]) };
+                lines.push(format!("append {k} {}", r.below(1 << 30))); n += k;
+            }
             1 if n > 0 => {
                 let t = match r.below(4) { 0 => 0, 1 => n - 1, 2 => n / 2, _ => r.below(n as u64) as usize };
                 lines.push(format!("trunc {t}"));
